@@ -61,6 +61,13 @@ class InjectedFault(OSError):
     """The error raised by every injected fault."""
 
 
+class InjectedInterrupt(KeyboardInterrupt):
+    """Ctrl-C while the cart is being produced: a failure that is not an Exception (spec['interrupt'] = True)."""
+
+
+_EXC = [InjectedFault]
+
+
 def has_injected(exc):
     """True when `exc` is, or was raised while handling / caused by, an InjectedFault."""
     seen = set()
@@ -70,7 +77,7 @@ def has_injected(exc):
         if e is None or id(e) in seen:
             continue
         seen.add(id(e))
-        if isinstance(e, InjectedFault):
+        if isinstance(e, (InjectedFault, InjectedInterrupt)):
             return True
         stack.append(e.__cause__)
         stack.append(e.__context__)
@@ -227,7 +234,7 @@ class Injector:
         self.fired = True
         self.fired_what = what
         self.count_at_fire = self.count
-        raise InjectedFault('injected')
+        raise _EXC[0]('injected')
 
     def note_fired(self, what):
         self.fired = True
@@ -262,6 +269,7 @@ class Injector:
             raise RuntimeError('nested Injector')
         _refresh_pristine()
         _active[0] = self
+        _EXC[0] = InjectedInterrupt if self.spec.get('interrupt') else InjectedFault
         self.active = True
         try:
             self._install()
@@ -272,6 +280,7 @@ class Injector:
 
     def __exit__(self, *exc):
         self._restore()
+        _EXC[0] = InjectedFault
         return False
 
     # ------------------------------------------------------------------ installation
@@ -469,12 +478,12 @@ def raising_writer(base_cls, after, on_pass=0):
             for line in super().to_lines():
                 if self._verif_pass == on_pass and n >= after:
                     state['fired'] = True
-                    raise InjectedFault('injected')
+                    raise _EXC[0]('injected')
                 yield line
                 n += 1
             if self._verif_pass == on_pass:
                 state['fired'] = True
-                raise InjectedFault('injected')
+                raise _EXC[0]('injected')
     return RaisingWriter
 
 
